@@ -840,70 +840,70 @@ func newMethod(pkg *ssa.Package, recvType types.Type, name string) *ssa.Function
 }
 
 var reflectExternals = map[string]externalFn{
-	"(reflect.Value).Bool":             ext۰reflect۰Value۰Bool,
-	"(reflect.Value).CanAddr":          ext۰reflect۰Value۰CanAddr,
-	"(reflect.Value).CanSet":           ext۰reflect۰Value۰CanSet,
-	"(reflect.Value).CanInterface":     ext۰reflect۰Value۰CanInterface,
-	"(reflect.Value).Call":             ext۰reflect۰Value۰Call,
-	"(reflect.Value).Elem":             ext۰reflect۰Value۰Elem,
-	"(reflect.Value).Field":            ext۰reflect۰Value۰Field,
-	"(reflect.Value).FieldByName":      ext۰reflect۰Value۰FieldByName,
-	"(reflect.Value).FieldByNameFunc":  ext۰reflect۰Value۰FieldByNameFunc,
-	"(reflect.Value).Float":            ext۰reflect۰Value۰Float,
-	"(reflect.Value).Index":            ext۰reflect۰Value۰Index,
-	"(reflect.Value).Int":              ext۰reflect۰Value۰Int,
-	"(reflect.Value).Interface":        ext۰reflect۰Value۰Interface,
-	"(reflect.Value).IsNil":            ext۰reflect۰Value۰IsNil,
-	"(reflect.Value).IsValid":          ext۰reflect۰Value۰IsValid,
-	"(reflect.Value).IsZero":           ext۰reflect۰Value۰IsZero,
-	"(reflect.Value).Kind":             ext۰reflect۰Value۰Kind,
-	"(reflect.Value).Len":              ext۰reflect۰Value۰Len,
-	"(reflect.Value).MapIndex":         ext۰reflect۰Value۰MapIndex,
-	"(reflect.Value).MapKeys":          ext۰reflect۰Value۰MapKeys,
-	"(reflect.Value).NumField":         ext۰reflect۰Value۰NumField,
-	"(reflect.Value).NumMethod":        ext۰reflect۰Value۰NumMethod,
-	"(reflect.Value).Pointer":          ext۰reflect۰Value۰Pointer,
-	"(reflect.Value).Set":              ext۰reflect۰Value۰Set,
-	"(reflect.Value).SetInt":           ext۰reflect۰Value۰SetInt,
-	"(reflect.Value).SetUint":          ext۰reflect۰Value۰SetUint,
-	"(reflect.Value).SetFloat":         ext۰reflect۰Value۰SetFloat,
-	"(reflect.Value).SetBool":          ext۰reflect۰Value۰SetBool,
-	"(reflect.Value).SetString":        ext۰reflect۰Value۰SetString,
-	"(reflect.Value).String":           ext۰reflect۰Value۰String,
-	"(reflect.Value).Type":             ext۰reflect۰Value۰Type,
-	"(reflect.Value).Uint":             ext۰reflect۰Value۰Uint,
-	"(reflect.error).Error":            ext۰reflect۰error۰Error,
-	"(reflect.rtype).AssignableTo":     ext۰reflect۰rtype۰AssignableTo,
-	"(reflect.rtype).ConvertibleTo":    ext۰reflect۰rtype۰ConvertibleTo,
-	"(reflect.rtype).Implements":       ext۰reflect۰rtype۰Implements,
-	"(reflect.rtype).Comparable":       ext۰reflect۰rtype۰Comparable,
-	"(reflect.rtype).Bits":             ext۰reflect۰rtype۰Bits,
-	"(reflect.rtype).Elem":             ext۰reflect۰rtype۰Elem,
-	"(reflect.rtype).Field":            ext۰reflect۰rtype۰Field,
-	"(reflect.rtype).FieldByName":      ext۰reflect۰rtype۰FieldByName,
-	"(reflect.rtype).FieldByNameFunc":  ext۰reflect۰rtype۰FieldByNameFunc,
-	"(reflect.rtype).In":               ext۰reflect۰rtype۰In,
-	"(reflect.rtype).Kind":             ext۰reflect۰rtype۰Kind,
-	"(reflect.rtype).Method":           ext۰reflect۰rtype۰Method,
-	"(reflect.rtype).Name":             ext۰reflect۰rtype۰Name,
-	"(reflect.rtype).NumField":         ext۰reflect۰rtype۰NumField,
-	"(reflect.rtype).NumIn":            ext۰reflect۰rtype۰NumIn,
-	"(reflect.rtype).NumMethod":        ext۰reflect۰rtype۰NumMethod,
-	"(reflect.rtype).NumOut":           ext۰reflect۰rtype۰NumOut,
-	"(reflect.rtype).Out":              ext۰reflect۰rtype۰Out,
-	"(reflect.rtype).PkgPath":          ext۰reflect۰rtype۰PkgPath,
-	"(reflect.rtype).Size":             ext۰reflect۰rtype۰Size,
-	"(reflect.rtype).String":           ext۰reflect۰rtype۰String,
-	"reflect.New":                      ext۰reflect۰New,
-	"reflect.MakeSlice":                ext۰reflect۰MakeSlice,
-	"reflect.SliceOf":                  ext۰reflect۰SliceOf,
-	"reflect.PtrTo":                    ext۰reflect۰PtrTo,
-	"reflect.PointerTo":                ext۰reflect۰PtrTo,
-	"reflect.TypeOf":                   ext۰reflect۰TypeOf,
-	"reflect.ValueOf":                  ext۰reflect۰ValueOf,
-	"reflect.Zero":                     ext۰reflect۰Zero,
-	"reflect.DeepEqual":                ext۰reflect۰DeepEqual,
-	"(reflect.Kind).String":            func(fr *frame, args []value) value { return reflect.Kind(asInt64(args[0])).String() },
+	"(reflect.Value).Bool":            ext۰reflect۰Value۰Bool,
+	"(reflect.Value).CanAddr":         ext۰reflect۰Value۰CanAddr,
+	"(reflect.Value).CanSet":          ext۰reflect۰Value۰CanSet,
+	"(reflect.Value).CanInterface":    ext۰reflect۰Value۰CanInterface,
+	"(reflect.Value).Call":            ext۰reflect۰Value۰Call,
+	"(reflect.Value).Elem":            ext۰reflect۰Value۰Elem,
+	"(reflect.Value).Field":           ext۰reflect۰Value۰Field,
+	"(reflect.Value).FieldByName":     ext۰reflect۰Value۰FieldByName,
+	"(reflect.Value).FieldByNameFunc": ext۰reflect۰Value۰FieldByNameFunc,
+	"(reflect.Value).Float":           ext۰reflect۰Value۰Float,
+	"(reflect.Value).Index":           ext۰reflect۰Value۰Index,
+	"(reflect.Value).Int":             ext۰reflect۰Value۰Int,
+	"(reflect.Value).Interface":       ext۰reflect۰Value۰Interface,
+	"(reflect.Value).IsNil":           ext۰reflect۰Value۰IsNil,
+	"(reflect.Value).IsValid":         ext۰reflect۰Value۰IsValid,
+	"(reflect.Value).IsZero":          ext۰reflect۰Value۰IsZero,
+	"(reflect.Value).Kind":            ext۰reflect۰Value۰Kind,
+	"(reflect.Value).Len":             ext۰reflect۰Value۰Len,
+	"(reflect.Value).MapIndex":        ext۰reflect۰Value۰MapIndex,
+	"(reflect.Value).MapKeys":         ext۰reflect۰Value۰MapKeys,
+	"(reflect.Value).NumField":        ext۰reflect۰Value۰NumField,
+	"(reflect.Value).NumMethod":       ext۰reflect۰Value۰NumMethod,
+	"(reflect.Value).Pointer":         ext۰reflect۰Value۰Pointer,
+	"(reflect.Value).Set":             ext۰reflect۰Value۰Set,
+	"(reflect.Value).SetInt":          ext۰reflect۰Value۰SetInt,
+	"(reflect.Value).SetUint":         ext۰reflect۰Value۰SetUint,
+	"(reflect.Value).SetFloat":        ext۰reflect۰Value۰SetFloat,
+	"(reflect.Value).SetBool":         ext۰reflect۰Value۰SetBool,
+	"(reflect.Value).SetString":       ext۰reflect۰Value۰SetString,
+	"(reflect.Value).String":          ext۰reflect۰Value۰String,
+	"(reflect.Value).Type":            ext۰reflect۰Value۰Type,
+	"(reflect.Value).Uint":            ext۰reflect۰Value۰Uint,
+	"(reflect.error).Error":           ext۰reflect۰error۰Error,
+	"(reflect.rtype).AssignableTo":    ext۰reflect۰rtype۰AssignableTo,
+	"(reflect.rtype).ConvertibleTo":   ext۰reflect۰rtype۰ConvertibleTo,
+	"(reflect.rtype).Implements":      ext۰reflect۰rtype۰Implements,
+	"(reflect.rtype).Comparable":      ext۰reflect۰rtype۰Comparable,
+	"(reflect.rtype).Bits":            ext۰reflect۰rtype۰Bits,
+	"(reflect.rtype).Elem":            ext۰reflect۰rtype۰Elem,
+	"(reflect.rtype).Field":           ext۰reflect۰rtype۰Field,
+	"(reflect.rtype).FieldByName":     ext۰reflect۰rtype۰FieldByName,
+	"(reflect.rtype).FieldByNameFunc": ext۰reflect۰rtype۰FieldByNameFunc,
+	"(reflect.rtype).In":              ext۰reflect۰rtype۰In,
+	"(reflect.rtype).Kind":            ext۰reflect۰rtype۰Kind,
+	"(reflect.rtype).Method":          ext۰reflect۰rtype۰Method,
+	"(reflect.rtype).Name":            ext۰reflect۰rtype۰Name,
+	"(reflect.rtype).NumField":        ext۰reflect۰rtype۰NumField,
+	"(reflect.rtype).NumIn":           ext۰reflect۰rtype۰NumIn,
+	"(reflect.rtype).NumMethod":       ext۰reflect۰rtype۰NumMethod,
+	"(reflect.rtype).NumOut":          ext۰reflect۰rtype۰NumOut,
+	"(reflect.rtype).Out":             ext۰reflect۰rtype۰Out,
+	"(reflect.rtype).PkgPath":         ext۰reflect۰rtype۰PkgPath,
+	"(reflect.rtype).Size":            ext۰reflect۰rtype۰Size,
+	"(reflect.rtype).String":          ext۰reflect۰rtype۰String,
+	"reflect.New":                     ext۰reflect۰New,
+	"reflect.MakeSlice":               ext۰reflect۰MakeSlice,
+	"reflect.SliceOf":                 ext۰reflect۰SliceOf,
+	"reflect.PtrTo":                   ext۰reflect۰PtrTo,
+	"reflect.PointerTo":               ext۰reflect۰PtrTo,
+	"reflect.TypeOf":                  ext۰reflect۰TypeOf,
+	"reflect.ValueOf":                 ext۰reflect۰ValueOf,
+	"reflect.Zero":                    ext۰reflect۰Zero,
+	"reflect.DeepEqual":               ext۰reflect۰DeepEqual,
+	"(reflect.Kind).String":           func(fr *frame, args []value) value { return reflect.Kind(asInt64(args[0])).String() },
 }
 
 var rtypeMethodNames = []string{"AssignableTo", "ConvertibleTo", "Implements", "Comparable", "Bits", "Elem", "Field",
